@@ -625,6 +625,35 @@ func (e *FnExec) call(st *State, instr ssa.Instruction, c *ssa.CallCommon, res s
 			}
 		}
 	}
+	if con == nil && key != "" && e.con != nil && e.con.Guards != nil {
+		// a guard can also be put on a call to a callee without contract (its effects are unknown,
+		// the condition under which it may be called is still checkable)
+		name := lastName(key)
+		gk := fmt.Sprintf("%s#%d", name, e.guardOrdinal(name, instr))
+		if g, ok := e.con.Guards[gk]; ok {
+			env := e.specEnv(st, instr.Pos())
+			env.block = instr.Block()
+			off := 0
+			if sig != nil && sig.Recv() != nil {
+				off = 1
+			}
+			if sig != nil {
+				for k := 0; k < sig.Params().Len() && off+k < len(args); k++ {
+					env.vars[fmt.Sprintf("arg%d", k)] = specVar{args[off+k], sig.Params().At(k).Type()}
+				}
+			}
+			t, err := env.boolExpr(g)
+			if err != nil && strings.Contains(err.Error(), "no such contracted call") {
+				t, err = False, nil
+			}
+			if err != nil {
+				e.errf("%v", err)
+			} else {
+				e.assert(st, "guardcall", t, instr.Pos(), "call "+gk+" only when "+g.Text, gk)
+				e.guardSeen[gk] = true
+			}
+		}
+	}
 	if con == nil {
 		if key != "" {
 			e.noteCall(st, key, args, sig, c)
@@ -679,6 +708,41 @@ func (e *FnExec) noteCall(st *State, key string, args []*Term, sig *types.Signat
 		if id, ok := e.calledCell[q]; ok {
 			st.cells[id] = True
 		}
+	}
+	for _, g := range e.calledWith {
+		if g.name != name {
+			continue
+		}
+		off0 := 0
+		if sig.Recv() != nil {
+			off0 = 1
+		}
+		if off0+g.k >= len(args) {
+			continue
+		}
+		env := e.specEnv(st, token.NoPos)
+		x, perr := ParseSpec(g.expr)
+		if perr != nil {
+			e.errf("calledwith(%s, %d, %s): %v", g.name, g.k, g.expr, perr)
+			continue
+		}
+		var v *Term
+		func() {
+			defer func() {
+				if r := recover(); r != nil {
+					e.errf("calledwith(%s, %d, %s): %v", g.name, g.k, g.expr, r)
+				}
+			}()
+			v, _ = env.tr(x)
+		}()
+		if v == nil || v.Sort != args[off0+g.k].Sort {
+			continue
+		}
+		cur := st.cells[g.cell]
+		if cur == nil {
+			cur = False
+		}
+		st.cells[g.cell] = Or(cur, Eq(args[off0+g.k], v))
 	}
 	off := 0
 	if sig.Recv() != nil {
